@@ -301,15 +301,13 @@ Definition finish_sync (cx : sync_ctx) (so : strat_out) : outcome ers_plan :=
   let del_targets := flat_map (pod_of_node (cx_items cx)) del_nodes in
   let c_del := if negb del_delayed && negb (Nat.eqb (length (so_delete_nodes so)) 0)
                then update_cond c_uns now CT_PodDeletion CTrue no_name M_PODS_DELETED false true else c_uns in
-  (* creations; the log line of the delay branch dereferences the pointer to the PodDeletion
-     condition fetched BEFORE the deletion branch ran (nil when the condition did not exist then) *)
+  (* creations (repaired defect D16: the log line of the delay branch read the PodDeletion condition,
+     nil when that condition does not exist) *)
   let create_delayed :=
     match get_cond c_del CT_PodCreation with
     | Some c => tsub now (c_update c) <? freq
     | None => false
     end in
-  if create_delayed && match get_cond c_uns CT_PodDeletion with None => true | Some _ => false end
-  then Panic 31%N else
   let create_targets := if create_delayed then [] else so_create_nodes so in
   (* the runtime's observable choice must be one the model allows (Error 99 otherwise) *)
   if match so_rolling so with
